@@ -51,3 +51,44 @@ Definition fallback_sig (ty : aty) (op : aop) : list cty * cty :=
   | USize, OSub => Gen_Arith.KS_size_sub_overflow0_sig
   | USize, OMul => Gen_Arith.KS_size_mul_overflow0_sig
   end.
+
+(* the entry points of arithmetic.h, KS_<ty>_<op>_overflow: what they do when the compiler has the builtin
+   (the builtin's documented contract, Ks/ArithBuiltinDefs.v) and when it has not (the fallback) *)
+Definition builtin (ty : aty) (op : aop) : Z -> Z -> cres :=
+  match ty, op with
+  | I32, OAdd => Gen_Arith.KS_i32_add_overflow_builtin
+  | I32, OSub => Gen_Arith.KS_i32_sub_overflow_builtin
+  | I32, OMul => Gen_Arith.KS_i32_mul_overflow_builtin
+  | I64, OAdd => Gen_Arith.KS_i64_add_overflow_builtin
+  | I64, OSub => Gen_Arith.KS_i64_sub_overflow_builtin
+  | I64, OMul => Gen_Arith.KS_i64_mul_overflow_builtin
+  | U32, OAdd => Gen_Arith.KS_u32_add_overflow_builtin
+  | U32, OSub => Gen_Arith.KS_u32_sub_overflow_builtin
+  | U32, OMul => Gen_Arith.KS_u32_mul_overflow_builtin
+  | U64, OAdd => Gen_Arith.KS_u64_add_overflow_builtin
+  | U64, OSub => Gen_Arith.KS_u64_sub_overflow_builtin
+  | U64, OMul => Gen_Arith.KS_u64_mul_overflow_builtin
+  | USize, OAdd => Gen_Arith.KS_size_add_overflow_builtin
+  | USize, OSub => Gen_Arith.KS_size_sub_overflow_builtin
+  | USize, OMul => Gen_Arith.KS_size_mul_overflow_builtin
+  end.
+Definition nobuiltin (ty : aty) (op : aop) : Z -> Z -> cres :=
+  match ty, op with
+  | I32, OAdd => Gen_Arith.KS_i32_add_overflow_nobuiltin
+  | I32, OSub => Gen_Arith.KS_i32_sub_overflow_nobuiltin
+  | I32, OMul => Gen_Arith.KS_i32_mul_overflow_nobuiltin
+  | I64, OAdd => Gen_Arith.KS_i64_add_overflow_nobuiltin
+  | I64, OSub => Gen_Arith.KS_i64_sub_overflow_nobuiltin
+  | I64, OMul => Gen_Arith.KS_i64_mul_overflow_nobuiltin
+  | U32, OAdd => Gen_Arith.KS_u32_add_overflow_nobuiltin
+  | U32, OSub => Gen_Arith.KS_u32_sub_overflow_nobuiltin
+  | U32, OMul => Gen_Arith.KS_u32_mul_overflow_nobuiltin
+  | U64, OAdd => Gen_Arith.KS_u64_add_overflow_nobuiltin
+  | U64, OSub => Gen_Arith.KS_u64_sub_overflow_nobuiltin
+  | U64, OMul => Gen_Arith.KS_u64_mul_overflow_nobuiltin
+  | USize, OAdd => Gen_Arith.KS_size_add_overflow_nobuiltin
+  | USize, OSub => Gen_Arith.KS_size_sub_overflow_nobuiltin
+  | USize, OMul => Gen_Arith.KS_size_mul_overflow_nobuiltin
+  end.
+Definition entry_point (has_builtin : bool) (ty : aty) (op : aop) : Z -> Z -> cres :=
+  if has_builtin then builtin ty op else nobuiltin ty op.
